@@ -492,6 +492,8 @@ func rulesC06(e *Engine, r *Report) {
 		r.Min("R06.12", "returns of pathToName", n, 1)
 	}
 	e.checkCutsets(r, "R06.12")
+	// ---------------------------------------------------------------- R06.13
+	e.shareRule(r, "C20", "R20.2", "R06.13", "the cleaner does not take away what recovery needs: the companion of a validated, parked file is the only record a restart finds it by - the stray cleaner removes a companion only together with the stray partial of a LOGGED file (or on the strength of a log record with the companion's hash)")
 }
 
 // checkRecoverReadiness: Recover keeps readiness cleared across every step and
